@@ -37,6 +37,8 @@ From AV Require Import Generated.Table Generated.Style Generated.Render Generate
   Proofs.TableFacts Proofs.ParserSim Proofs.VtLimits Proofs.ParserCor Proofs.StripMachine Proofs.StripSim Proofs.StripStr
   Proofs.StripPieces Proofs.WinconRuns Proofs.WinconConsole Proofs.Stream Proofs.StreamAuto
   Proofs.Lossy Proofs.Git Proofs.LsParse Proofs.Roff Proofs.ParseCfg Proofs.Render Proofs.Svg Proofs.NoPanic.
+From AV Require Import Generated.ParserFn Proofs.ParserGen Generated.StripFn Proofs.StripGen Generated.WinconFn Proofs.WinconGen Generated.LossyFn
+  Generated.LsFn Generated.GitFn Generated.RoffFn Proofs.NoPanicGen.
 Import ListNotations.
 Local Open Scope N_scope.
 
@@ -301,6 +303,42 @@ Theorem c04_svg_total :
   Forall (fun b => b < 256) input ->
   exists d, svg_doc t input = Some d.
 Proof. exact svg_doc_total. Qed.
+
+(* ==== 11. the same, of the code TRANSLATED from the Rust source ============================
+   Generated/*Fn.v is re-written from crates/**.rs on every run (tools/rs2v, DESIGN.md section 12);
+   a translated function is [None] exactly where the function as written would panic (index,
+   slice range, checked arithmetic, unwrap / expect, loop fuel).  These statements do not go through
+   the hand-model tie by correspondence. *)
+
+Theorem c04_translated_parser_never_panics :
+  forall bs, Forall (fun b => b < 256) bs -> g_run cfg_default parser_new [] bs <> None.
+Proof. exact translated_parser_never_panics. Qed.
+
+Theorem c04_translated_strip_bytes_never_panics :
+  forall input, Forall (fun b => b < 256) input -> g_stripped_bytes_into_vec (g_strip_bytes input) <> None.
+Proof. exact translated_strip_bytes_never_panics. Qed.
+
+Theorem c04_translated_strip_str_never_panics :
+  forall input, Forall (fun b => b < 256) input -> g_strip_str_to_string input <> None.
+Proof. exact translated_strip_str_never_panics. Qed.
+
+Theorem c04_translated_extract_next_never_panics :
+  forall bs p v c, Forall (fun b => b < 256) bs -> R p v -> g_extract_next bs p c <> None.
+Proof. exact translated_extract_next_never_panics. Qed.
+
+Theorem c04_translated_lossy_never_panics :
+  forall col p, color_ok col -> palette_ok p ->
+  g_color_to_rgb col p <> None /\ g_color_to_xterm col <> None /\ g_color_to_ansi col p <> None.
+Proof. exact translated_lossy_never_panics. Qed.
+
+Theorem c04_translated_ls_parse_never_panics : forall s, g_ls_parse s <> None.
+Proof. exact translated_ls_parse_never_panics. Qed.
+
+Theorem c04_translated_git_parse_never_panics : forall s, g_git_parse s <> None.
+Proof. exact translated_git_parse_never_panics. Qed.
+
+Theorem c04_translated_to_roff_never_panics : forall input, g_to_roff input <> None.
+Proof. exact translated_to_roff_never_panics. Qed.
 
 (* ==== non-vacuity: one hostile input through the entry points ================================ *)
 
